@@ -93,12 +93,7 @@ Proof.
       - cbn. split; [reflexivity|discriminate].
       - apply pstart_vac. reflexivity.
       - exact Hj.
-      - unfold s3, sa1, s1, sc, mkafter. cbn [bef].
-        assert (H := ND_app (rc ++ Q :: ra ++ [C]) (bef s) (rb ++ rest)).
-        replace ((rc ++ Q :: ra ++ [C]) ++ rb ++ rest) with (rc ++ Q :: ra ++ C :: rb ++ rest) in H
-          by (rewrite <- !app_assoc; cbn [app]; rewrite <- !app_assoc; reflexivity).
-        specialize (H Hnd). rewrite rev_mid, rev_app_distr in H. cbn [rev app] in H.
-        rewrite <- ?app_assoc in H. cbn [app] in H. exact H.
+      - right. reflexivity.
       - intros r a0 Hr. unfold s3, sa1, s1, sc, mkafter. cbn [bef]. apply Hq. lia.
       - intros E a0. unfold s3, sa1, s1, sc, mkafter. cbn [bef]. apply Hq14.
       - intros E a0. unfold s3, sa1, s1, sc, mkafter. cbn [bef]. apply Hq. lia.
@@ -125,10 +120,7 @@ Proof.
     - cbn. split; [reflexivity|discriminate].
     - apply pstart_vac. reflexivity.
     - reflexivity.
-    - unfold s1, sc, mkafter. cbn [bef].
-      assert (H := ND_app (rc ++ [Q]) (bef s) (ra ++ C :: rb ++ rest)).
-      rewrite <- app_assoc in H. cbn [app] in H. specialize (H Hnd).
-      rewrite rev_app_distr in H. cbn [rev app] in H. exact H.
+    - right. reflexivity.
     - intros r a0 Hr. apply quiet_colon. lia.
     - intros E a0. apply quiet_colon_asg.
     - intros E a0. apply quiet_colon. lia.
